@@ -3,7 +3,7 @@ use std::cell::{Cell, RefCell};
 use std::io::{self, Write};
 use std::panic::UnwindSafe;
 use std::process::abort;
-use std::sync::atomic::{AtomicBool, Ordering};
+use std::sync::Once;
 
 /// Describes the fallback behavior when
 /// a panic occurs outside of `catch_panic`.
@@ -28,7 +28,7 @@ thread_local! {
     // Status of the panic catcher
     static PANIC_CATCHER_ENABLED: Cell<bool> = const { Cell::new(false) };
 }
-static PANIC_CATCHER_HOOK_SET: AtomicBool = AtomicBool::new(false);
+static PANIC_CATCHER_HOOK_SET: Once = Once::new();
 
 #[inline]
 fn panic_catcher_start_catching() -> bool {
@@ -132,9 +132,10 @@ fn record_backtrace(info: &std::panic::PanicHookInfo<'_>, bt: &mut String) {
 
 /// Registers panic catcher panic hook.
 pub fn panic_catcher_set_hook() {
-    if PANIC_CATCHER_HOOK_SET.load(Ordering::SeqCst) {
-        return;
-    }
+    PANIC_CATCHER_HOOK_SET.call_once(install_hook);
+}
+
+fn install_hook() {
     let next = std::panic::take_hook();
     #[cfg(feature = "verif-hooks")]
     crate::verif::race_window();
@@ -156,7 +157,6 @@ pub fn panic_catcher_set_hook() {
             }
         }
     }));
-    PANIC_CATCHER_HOOK_SET.store(true, Ordering::SeqCst);
 }
 
 /// Enables the panic catcher.
